@@ -280,6 +280,14 @@ def make_faults(rng, data, lay, quick):
                 a2 = data[o1 + tsz:o1 + 2 * tsz]
                 if a1 != a2:
                     faults.append(dict(t="byte", off=o1, bytes=[[o1 + i, a2[i]] for i in range(tsz)] + [[o1 + tsz + i, a1[i]] for i in range(tsz)]))
+    # (d'') targeted data faults: the first and the last element of every id column replaced by a large positive id (no table is that long)
+    for it in lay["items"]:
+        if it["type"] == 4 and it["al"] >= 1 and it["key"] in ("nodes/population", "nodes/individual", "edges/parent", "edges/child", "mutations/site",
+                                                                "mutations/node", "mutations/parent", "migrations/node", "migrations/source",
+                                                                "migrations/dest", "individuals/parents"):
+            for q in sorted({0, it["al"] - 1}):
+                o1 = it["as"] + 4 * q
+                faults.append(dict(t="byte", off=o1, bytes=[[o1 + i, b] for i, b in enumerate((0x01, 0x00, 0x00, 0x7F))]))
     # (d) random substitutions in the data region
     for _ in range(150 if quick else 2000):
         off = rng.randrange(keys_end, size)
@@ -318,6 +326,12 @@ def run():
                 for par_ in ([], [0], [0, 1]):
                     t.individuals.add_row(parents=par_, location=[1.5] * len(par_), metadata=b"i%d" % len(par_))
                 t.nodes.individual = np.array([0, 1, 2, -1, -1], dtype=np.int32)
+                # ... and populations with two migration records, so that every id column of the format is present and non-empty
+                for _ in range(3):
+                    t.populations.add_row()
+                t.nodes.population = np.array([0, 1, 2, 0, 0], dtype=np.int32)
+                t.migrations.add_row(left=0, right=10, node=1, source=1, dest=0, time=0.5)
+                t.migrations.add_row(left=0, right=5, node=2, source=2, dest=0, time=1.5)
                 valid = True
             else:
                 t, valid = c05.random_collection(rng, valid=True)
